@@ -582,8 +582,6 @@ class C02(core.Property):
         if not guard:
             return {"M": M, "S": None, "guard": False}
         term_s = TERM[int(next(it))]
-        if c.get("end", "eof") != "eof" and c["kind"] == "sync":
-            term_s = None           # C15: the synchronous run() has no handler for a reset; S does not ask for one
         S = {"bodies": sev, "term": term_s, "dispatch": "ok"}
         return {"M": M, "S": S, "guard": True}
 
@@ -662,7 +660,7 @@ class C02(core.Property):
         fixed = [(f"frames 0 65536 0 1 0 0 {b} 24 1 24", "1 0 0 1 1 0"),
                  (f"frames 1 0 0 1 0 0 {b} 24 1 24", "1 0 1 3 123 34 97 1 1 0"),
                  (f"frames 1 0 1 1 0 0 {b} 24 1 24", "1 0 0 1 1 0"),
-                 (f"frames 2 0 1 1 0 0 {b} 24 1 24", "1 3 0 1 1 3"),
+                 (f"frames 2 0 1 1 0 0 {b} 24 1 24", "1 0 0 1 1 0"),
                  ("raw 0 20 0 1 9 67 58 32 120 120 120 120 13 10", "1 0 0"),
                  ("dec 65537", "5 54 53 53 51 55"),
                  ("parsecl 19 67 111 110 116 101 110 116 45 76 101 110 103 116 104 58 32 48 55 13 10".replace(" 19 ", " 20 "), "1 7")]
